@@ -1157,7 +1157,14 @@ def be_int(b):
     b = to_bytes_val(b)
     n = b.length
     if not isinstance(n, int):
-        n = CUR.concretize(n, what="int.from_bytes length")
+        if CUR.prove(T(n) <= 16):
+            n = CUR.concretize(n, what="int.from_bytes length")
+        else:
+            # the big-endian value of a byte string of unbounded symbolic length: an unconstrained non-negative
+            # integer (over-approximation: nothing is claimed about it)
+            v = CUR.fresh_int("bigval")
+            CUR.add(v >= 0)
+            return SymInt(v)
     v = 0
     for k in range(n):
         v = v * 256 + b.at(k)
